@@ -101,14 +101,16 @@ Proof.
   - apply nu_bind; [exact IHe|]. intros v. destruct v; try own. destruct (assoc k m); own.
 Qed.
 Lemma nu_py_in k v : NU (py_in k v). Proof. destruct v; cbn; own. Qed.
-Lemma nu_ceval c o it : NU (ceval c o it).
+Lemma nu_ceval c o : forall it, NU (ceval c o it).
 Proof.
-  induction c; cbn; try (apply nu_bind; [apply nu_heval|]; intros v; try own).
+  induction c; intros it; cbn; try (apply nu_bind; [apply nu_heval|]; intros v; try own).
   - apply nu_py_in.
   - destruct v; own.
-  - apply nu_bind; [exact IHc|]. intros b. own.
-  - apply nu_bind; [exact IHc1|]. intros b. destruct b; [own | exact IHc2].
-  - apply nu_bind; [exact IHc1|]. intros b. destruct b; [exact IHc2 | own].
+  - apply nu_bind; [apply IHc|]. intros b. own.
+  - apply nu_bind; [apply IHc1|]. intros b. destruct b; [own | apply IHc2].
+  - apply nu_bind; [apply IHc1|]. intros b. destruct b; [apply IHc2 | own].
+  - destruct (iter_json v) as [l|]; [|own]. induction l as [|x l IHl]; [own|].
+    apply nu_bind; [apply IHc|]. intros b. destruct b; [own | exact IHl].
 Qed.
 Lemma nu_py_int j : NU (py_int j). Proof. destruct j; cbn; own. Qed.
 Lemma nu_py_float j : NU (py_float j). Proof. destruct j; cbn; own. Qed.
